@@ -11,7 +11,10 @@ Tails == {"", ".", " ", "?q", "/b"}
 ExtSeqs == UNION { [1..n -> Tok] : n \in 0..MaxExts }
 \* the full cross product for <= 1 extension; for 2..MaxExts extensions only chains ending in a
 \* compression token or starting with one (what compound handling can confuse)
-Interesting(e) == Len(e) <= 1 \/ e[Len(e)] \in {"gz", "bz2", "xz", "tar"} \/ e[1] \in {"tar", "zip", "docx"}
+Interesting(e) ==
+    \/ Len(e) <= 1
+    \/ Len(e) = 2 /\ (e[2] \in {"gz", "bz2", "xz", "tar"} \/ e[1] \in {"tar", "zip", "docx"})
+    \/ Len(e) = 3 /\ (e[2] = "tar" \/ (e[1] = "tar" /\ e[2] \in {"gz", "bz2", "xz"}))   \* around a compound suffix
 
 Init == p \in { [exts |-> e, hidden |-> h, tail |-> t] :
                    e \in {x \in ExtSeqs : Interesting(x)}, h \in BOOLEAN, t \in Tails }
